@@ -120,3 +120,21 @@ func ZZ_C07_check() {
 		vReach("rejected")
 	}
 }
+
+// ZZ_C07_b58_foreign: "any foreign character yields the empty result" over arbitrary BYTE strings
+// (bit-vector bytes, so non-ASCII bytes and multi-byte UTF-8 sequences are included; the Int-mode
+// harness above covers the arithmetic, this one covers the scanning).
+func ZZ_C07_b58_foreign() {
+	n := vCase("n", 1, vParam("maxchars", 3))
+	cs := vBytes("s", n)
+	foreign := false
+	for _, c := range cs {
+		foreign = vOr(foreign, b58[c] == 255)
+	}
+	vAssume(foreign)
+	d := Decode(string(cs))
+	vAssert("foreign-gives-empty", len(d) == 0)
+	_, _, err := CheckDecode(string(cs))
+	vAssert("foreign-check-rejected", err != nil)
+	vReach("end")
+}
